@@ -375,6 +375,13 @@ impl Server {
             if let Some(p) = &privilege {
                 let upd = json!({"username": name, "namespacePrivilegeParam": p});
                 self.admin_ok(&Req::new("POST", "/v2/user/update").json(upd), "update user privilege")?;
+                // partial updates afterwards (an update changes only what it carries): the nickname alone, then one
+                // field of the privilege alone with the value it already has - the group must stay what it is
+                let upd = json!({"username": name, "nickname": format!("{}-renamed", name)});
+                self.admin_ok(&Req::new("POST", "/v2/user/update").json(upd), "update user nickname")?;
+                let one = if p["whitelistIsAll"] == json!(true) { json!({"whitelistIsAll": true}) } else { json!({"whitelist": p["whitelist"].clone()}) };
+                let upd = json!({"username": name, "namespacePrivilegeParam": one});
+                self.admin_ok(&Req::new("POST", "/v2/user/update").json(upd), "partial update of the user privilege")?;
             }
         }
         let t = self.http.login(name, pw)?;
